@@ -37,8 +37,15 @@ Big == {65536, 65537, 16777216}       \* plus 2^32 - 1, 2^32, 2^32 + 1 and usize
 Cases ==
      { [op |-> "params", n |-> n, cap |-> cap, expect |-> GuardParams(n, cap)] : n \in 0..130, cap \in 0..(IF Quick THEN 40 ELSE 130) }
   \cup { [op |-> "params", n |-> n, cap |-> cap, expect |-> GuardParams(n, cap)] : n \in {1, 8, 64, 65, 128}, cap \in {64, 128, 129} }
-  \cup { [op |-> "stmt", m |-> m, np |-> np, seed |-> sd, cap |-> cap, expect |-> GuardStmt(m, np, sd, cap)] :
-           m \in 0..17, np \in 0..18, sd \in BOOLEAN, cap \in {1, 2, 4, 8, 16, 32} }
+  \* (sval: the VALUE of the seed - 0 an ordinary scalar, 1 the zero scalar, 2 the largest canonical scalar; the domain is structural,
+  \*  so the value must not matter)
+  \cup { [op |-> "stmt", m |-> m, np |-> np, seed |-> sd, sval |-> sv, cap |-> cap, expect |-> GuardStmt(m, np, sd, cap)] :
+           m \in 0..17, np \in 0..18, sd \in BOOLEAN, sv \in 0..2, cap \in {1, 2, 4, 8, 16, 32} }
+  \* arguments near the machine-word limit, by name (TLC integers are 32-bit): the guards refuse them - they do not multiply first
+  \cup { [op |-> "params_named", nname |-> nn, cname |-> cc, expect |-> "err"] :
+           nn \in {"usizemax", "two63", "two32", "u32max"}, cc \in {"1", "2", "two32", "usizemax", "two63_plus1"} }
+  \cup { [op |-> "params_named", nname |-> nn, cname |-> cc, expect |-> "err"] :
+           nn \in {"64", "1", "3"}, cc \in {"usizemax", "two63_plus1", "aaab", "u32max"} }
   \cup { [op |-> "stmt_verify", m |-> mm, np |-> np, cap |-> cap, expect |-> IF GuardStmt(mm, np, FALSE, cap) = "ok" THEN "ok" ELSE "err"] :
            mm \in {1, 2, 4}, np \in 0..7, cap \in {4, 8} }
   \cup { [op |-> "wit", counts |-> cs, expect |-> GuardWit(cs)] : cs \in UNION { [1..k -> 0..8] : k \in 0..(IF Quick THEN 3 ELSE 4) } }
@@ -51,7 +58,7 @@ Cases ==
 
 VARIABLES c, pc
 Init == pc = "pick" /\ c = [op |-> "none"]
-Next == \/ pc = "pick" /\ pc' = "done" /\ c' \in Cases
+Next == \/ pc = "pick" /\ pc' = "done" /\ c' \in {x \in Cases : x.op = "stmt" => (x.seed \/ x.sval = 0)}
         \/ pc = "done" /\ UNCHANGED <<c, pc>>
 Spec == Init /\ [][Next]_<<c, pc>>
 
